@@ -141,6 +141,13 @@ factory_calls = st.sampled_from(["-2.5", "1.5*-0.5", "-3", "2*-4", "2.5*4", "7/2
 
 orphan_calls = st.sampled_from(["1+2*3", "2", "2 > 1", "(1+2)*3", "4*(2 > 1)", "1+", "2*3+4"]).map(
     lambda t: {"cfg": "orphan", "text": t, "fail": None})
+# a step list that also names operators outside the selected subset
+extra_calls = st.sampled_from(["1 + 1", "2 * 3 + 4 > 9", "2*3", "1 +", "4 > 3", "2 + 3 * 4", "(2", "5"]).map(
+    lambda t: {"cfg": "extra_steps", "text": t, "fail": None})
+# one function, argument values that are different numbers with equal hash() (-1 and -2; True, 1 and 1.0)
+fn_pairs = st.sampled_from(["sin(-1)", "sin(-2)", "exp(-1)", "exp(-2)", "cos(-2)", "cos(-1)", "cos(1)", "cos(1 == 1)",
+                            "sin(1.0)", "sin(1)", "sin(2 > 1)", "exp(-2) + exp(-1)", "sin(-1) * sin(-2)"]).map(
+    lambda t: {"cfg": "default", "text": t, "fail": None})
 postfix_calls = st.sampled_from(["3.14159@2", "2.71828@3", "1.23456@1 + 2", "2 * 9.87654@3", "3.14159@2 + foo", "(3.14159@2",
                                  "7.5 + 1", "1.23456@4 * 2", "0.55555@0"]).map(
     lambda t: {"cfg": "postfix", "text": t, "fail": None})
@@ -149,7 +156,7 @@ postfix_calls = st.sampled_from(["3.14159@2", "2.71828@3", "1.23456@1 + 2", "2 *
 @st.composite
 def _call(draw):
     c = dict(draw(st.one_of(default_expr(), default_expr(), lookup_expr(), string_expr(), inplace_expr(), deep_fail(),
-                            lookup_tight, factory_calls, orphan_calls, postfix_calls)))
+                            lookup_tight, factory_calls, orphan_calls, postfix_calls, extra_calls, fn_pairs, fn_pairs)))
     # the call may be made inside 'with solver:' (an exception then leaves the block before it is caught)
     c["with"] = draw(st.integers(0, 3)) == 0
     return c
@@ -218,6 +225,13 @@ def make(cfg):
         ops = {"par": OperatorPar, "mul": OperatorMul, "add": OperatorAdd, "gt": OperatorGt}
         steps = [dict(operators=["par"], otype=Otype.ARGS), dict(operators=["mul"], otype=Otype.BINARY),
                  dict(operators=["add"], otype=Otype.BINARY)]
+        return ExpressionSolver(AtomBase, ops, steps)
+    if cfg == "extra_steps":
+        # a subset of operators with a step list that also names operators which were not selected
+        from scinumtools.solver import OperatorGt
+        ops = {"add": OperatorAdd, "mul": OperatorMul, "gt": OperatorGt}
+        steps = [dict(operators=["mul", "truediv"], otype=Otype.BINARY), dict(operators=["add", "sub"], otype=Otype.BINARY),
+                 dict(operators=["gt"], otype=Otype.BINARY)]
         return ExpressionSolver(AtomBase, ops, steps)
     if cfg == "postfix":
         # user-defined operators whose constructor reads more than their symbol (a postfix '@<digits>' rounding)
